@@ -102,7 +102,7 @@ def resolve_default(d, pos):
     if tag == "bool":
         return v
     if tag == "str":
-        return v if v in ("", "3", "a.b") else ("%s_%s" % (v, NAMES[pos])).replace("two words_", "two words ")
+        return v if v in ("", "3", "a.b", QUOTE_EDGE_STR) else ("%s_%s" % (v, NAMES[pos])).replace("two words_", "two words ")
     if tag in ("strlit", "intlit"):
         return v
     if tag == "code":
@@ -121,6 +121,8 @@ def default_kind(d):
         return "int<0" if v < 0 else ("int0" if v == 0 else ("int1" if v == 1 else "int>0"))
     if tag == "float":
         return "float<0" if v < 0 else ("float_exp" if v == 1e-07 else ("float_like_bool" if v in (0.0, 1.0) else "float"))
+    if tag == "str" and v == QUOTE_EDGE_STR:
+        return "str_quote_edges"
     if tag == "str":
         return {"": "str_empty", "two words": "str_space", "3": "str_digit", "a.b": "str_dot"}.get(v, "str")
     if tag == "code":
@@ -128,11 +130,15 @@ def default_kind(d):
     if tag == "strlit" and v != "x":
         return {"": "strlit_empty", "1": "strlit_digit"}[v]
     if tag == "intlit" and v != 1:
-        return "intlit0"
+        return "intlit0" if v == 0 else "intlit<0"
     return tag
 
 
 def prose_kind(p):
+    if p.startswith("word "):
+        return "sweep%d" % len(p)
+    if p.startswith("'"):
+        return "quote_edges"
     return {ABSENT: "absent", "the {n}": "plain", "the {n}.": "stop", "uses 3.5 units, e.g. `x{n}`": "tricky",
             "the default behaviour of {n}": "word_default",
             "first sentence of {n}. second (see notes) sentence": "two_sentences", "the result": "plain",
@@ -170,7 +176,8 @@ def make_ir(atoms, ret=None, kwargs=False, summary=0):
         if d != ABSENT:
             r["default"] = resolve_default(d, 0)
         returns = OrderedDict((("return_type", r),))
-    return {"name": None, "type": "static", "doc": SUMMARIES[summary], "params": params, "returns": returns}
+    return {"name": None, "type": "static", "doc": SUMMARIES[summary] if isinstance(summary, int) else summary,
+            "params": params, "returns": returns}
 
 
 def atom_facts(atom, prefix="p."):
@@ -264,11 +271,51 @@ A_COLL = [
     ("Literal['1', '2']", ("strlit", "1"), "the {n}"),
     ("Optional[str]", ("str", "3"), "the {n}"),
     ("int", ABSENT, ABSENT),
+    ("Literal[-1, 0, 1]", ("intlit", -1), "the {n}"),
 ]
 
 
 def S_D(lengths=(2,)):
     return IRSpace(A_COLL, lengths, [None], [False], (0,))
+
+
+# ----------------------------------------------------------------------------- sweep space
+def words(n, tag="w"):
+    """Deterministic prose of exactly n characters made of short words (no full stops, braces or section tokens)."""
+    out = ["word"]
+    i = 0
+    while len(" ".join(out)) < n:
+        i += 1
+        out.append("%s%d" % (tag, i) if i % 3 else "word")
+    s = " ".join(out)[:n]
+    return s[:-1] + "x" if s.endswith(" ") else s
+
+
+QUOTE_EDGE_STR = "'a' or \"b\""
+QUOTE_EDGE_PROSE = "'{n}' selects what is called \"default\""
+QUOTE_EDGE_SUMMARY = "'Quoted' at the start and at the end \"quoted\""
+SWEEP_LENGTHS = list(range(60, 136)) + list(range(150, 261, 10))
+
+
+def S_W():
+    """Length sweeps (a wrap point moves across every position of a text) and texts whose first and last characters
+    are quote marks.  Listed explicitly; the same case format as IRSpace."""
+    second = ("str", ("str", "foo"), "the {n}")
+    cases = []
+    for n in SWEEP_LENGTHS:
+        for ret in (None, RETURNS[4]):
+            cases.append({"atoms": [("int", ("int", 5), words(n)), second], "ret": ret, "kwargs": False, "summary": 0})
+    for n in SWEEP_LENGTHS[::3]:
+        cases.append({"atoms": [A_RED[0]], "ret": ("int", words(n, "r"), ("code", "a + 1")), "kwargs": False, "summary": 0})
+        cases.append({"atoms": [A_RED[0]], "ret": ("int", words(n, "r"), ABSENT), "kwargs": False, "summary": 0})
+    for n in range(80, 111):
+        cases.append({"atoms": [A_RED[0]], "ret": None, "kwargs": False, "summary": "First line of the summary\n" + words(n, "s")})
+    qa = ("str", ("str", QUOTE_EDGE_STR), QUOTE_EDGE_PROSE)
+    cases.append({"atoms": [qa], "ret": None, "kwargs": False, "summary": QUOTE_EDGE_SUMMARY})
+    cases.append({"atoms": [A_RED[0], qa], "ret": RETURNS[4], "kwargs": False, "summary": 0})
+    cases.append({"atoms": [("str", ("str", "foo"), QUOTE_EDGE_PROSE)], "ret": None, "kwargs": False, "summary": 0})
+    cases.append({"atoms": [A_RED[0]], "ret": None, "kwargs": False, "summary": QUOTE_EDGE_SUMMARY})
+    return core.Listed(cases, note="length sweeps of parameter prose, return prose and a summary line; quote-edged texts")
 
 
 def S_C():
@@ -277,8 +324,8 @@ def S_C():
 
 def ir_space(tier, with_b4=False):
     if tier == "thorough" and with_b4:
-        return core.Concat(S_A(), S_B((2, 3, 4)), S_D((2, 3)))
-    return core.Concat(S_A(), S_B(), S_D((2, 3) if tier == "thorough" else (2,)))
+        return core.Concat(S_A(), S_B((2, 3, 4)), S_D((2, 3)), S_W())
+    return core.Concat(S_A(), S_B(), S_D((2, 3) if tier == "thorough" else (2,)), S_W())
 
 
 def case_ir(case):
